@@ -17,6 +17,8 @@ structure RunObs where
   late : Nat
   anomaly : String
   unreadable : Bool
+  cancelCalled : Bool := false   -- the caller's context was cancelled while the run was in progress
+  watcherStopped : Bool := true  -- the status watcher the runner started was stopped by the time the event channel closed
 
 structure History where
   pre : List Manifest
@@ -128,6 +130,7 @@ def checkC13 (_h : History) (obs : List RunObs) : Option String :=
       if o.anomaly ≠ "" && !("early-timeout".isPrefixOf o.anomaly) then some s!"C13 run {k}: {o.anomaly}"
       else if !o.closed then some s!"C13 run {k}: event channel not closed"
       else if o.late > 0 then some s!"C13 run {k}: {o.late} API requests after the channel closed"
+      else if !o.watcherStopped then some s!"C13 run {k}: the status watcher started by the run is still running after the event channel closed (its informers keep issuing LIST/WATCH requests)"
       else if !(eventsWellFormed (planOf o.events) (o.events.map toEvent)) then some s!"C13 run {k}: event stream violates the grammar"
       else none
 
@@ -417,9 +420,12 @@ def checkC12 (h : History) (obs : List RunObs) : Option String :=
           -- the request log after the close is empty (checked by C13.late); inventory never shrinks below live objects (C01)
           none
         else none
+      -- a run whose context was cancelled ends with the CONTEXT error, whatever the status watcher reported meanwhile
+      let badReason := if o.cancelCalled && es.getLast? = some (Ev.error "watcher")
+        then some "the caller's context was cancelled, yet the run ends with the watcher's error instead of the context error" else none
       let early := if "early-timeout".isPrefixOf o.anomaly then some o.anomaly
         else if (o.anomaly.splitOn "after the context was cancelled").length > 1 then some o.anomaly else none
-      (badTimeout <|> badCancel <|> early).map (fun s => s!"C12 run {k}: {s}")
+      (badTimeout <|> badCancel <|> badReason <|> early).map (fun s => s!"C12 run {k}: {s}")
     | _, _ => none
 
 /-! ### C03 — convergence -/
